@@ -229,6 +229,28 @@ def r13_2(ctx):
     ctx.floor("R13.2", 3)
 
 
+def r13_4(ctx):
+    """Semantic hidden-state probe: a step taken by a solver object that has already taken another step equals the
+    step of a fresh object, as canonical forms (state kept on the solver, the SDE wrapper or a module would show)."""
+    from . import steps, solvers
+    rep, model = ctx.rep, ctx.model
+    rep.rule("R13.4", "a solver step does not depend on earlier steps of the same solver object (canonical form of a "
+                      "second step == canonical form of a first step)")
+    dom = solvers.Domains(model)
+    for sc in steps.distinct_step_scenarios(model, dom):
+        y_cold, e_cold, _, _ = steps.eval_step(model, sc, dom)
+        y_warm, e_warm, _, _ = steps.eval_step(model, sc, dom, warm=True)
+        rep.analysed(sc.step_fi)
+        ok = nf.equal(y_cold, y_warm) and nf.equal(tuple(e_cold), tuple(e_warm))
+        rep.check(ok, "R13.4", astq.loc(sc.step_fi), f"{sc.step_fi.key}::R13.4::{sc.cls.name}::{sc.noise_type}"
+                  + ("::grad_free" if any(sc.options.values()) else ""),
+                  f"{sc.label}: a step taken after another step of the same solver object evaluates to `{str(y_warm)[:200]}`, "
+                  f"a fresh solver gives `{str(y_cold)[:200]}`: the solver carries state that is not returned through "
+                  f"(y, extra), so a restarted integration differs from the one-shot one", "no dependence on earlier steps")
+    ctx.floor("R13.4", 15)
+
+
 def run(ctx):
     ctx.guard(r13_1)
     ctx.guard(r13_2)
+    ctx.guard(r13_4)
